@@ -258,7 +258,7 @@ func anchorScenario(o anchorOpts) *Scenario {
 			regAct(model.WrkReg, "O", []string{"", "n", "0xg", "t"}, maxEnts),
 			// the owner spelled in upper case (a legal bech32 spelling): the stored owner is the signer's address all the same
 			upper(regAct(model.WrkReg, "W2", wIdent("u"), maxEnts)), upper(regAct(model.BcnReg, "W2", bIdent("u"), maxEnts)),
-			regAct(model.WrkReg, "O", []string{"m-only", "", "", "t"}, maxEnts), // optional fields left empty
+			regAct(model.WrkReg, "O", []string{"m-only", "", "", ""}, maxEnts), // every optional field left empty, the base type too
 			// limits are in bytes: 64 two-byte characters are 128 bytes (at the limit of the name), 128 are 256 (beyond it)
 			regAct(model.WrkReg, "O", []string{"m-utf8", strings.Repeat("é", 64), "0xg", "t"}, maxEnts),
 			regAct(model.WrkReg, "O", []string{"m-utf8x", strings.Repeat("é", 128), "0xg", "t"}, maxEnts),
